@@ -298,8 +298,24 @@ def generate():
                      f'def {name} : Bool := {"true" if under_lock(fdef) else "false"}\n')
 
     # ---------------------------------------------------------------- resource
-    if not same_shape(find_def(res, 'Resource.__init__'), RES_INIT_TEMPLATE):
+    # how Resource.__init__ builds its container: the arguments of the BoundedAttributes(...) call are extracted as a
+    # REAL VALUE (a count limit, a value limit or immutable=False would change what `Res.new` must be); the rest of the
+    # constructor is shape-checked with the call's arguments put aside
+    import copy
+    rinit = copy.deepcopy(find_def(res, 'Resource.__init__'))
+    container_args = None
+    for n in ast.walk(rinit):
+        if isinstance(n, ast.Assign) and ast.unparse(n.targets[0]) == 'self._attributes' \
+                and isinstance(n.value, ast.Call) and ast.unparse(n.value.func) == 'BoundedAttributes':
+            container_args = [ast.unparse(a) for a in n.value.args] + \
+                [f'{kw.arg}={ast.unparse(kw.value)}' for kw in n.value.keywords]
+            n.value.args, n.value.keywords = [], [ast.keyword(arg='attributes', value=ast.Name(id='attributes', ctx=ast.Load()))]
+    if container_args is None or not same_shape(rinit, RES_INIT_TEMPLATE):
         raise Untranslatable('Resource.__init__ changed shape')
+    parts.append('/-- the arguments `Resource.__init__` gives to `BoundedAttributes(...)`, as written now: only the attributes —\n'
+                 '    no max_length (the container of a resource is UNBOUNDED: nothing is evicted however many keys the\n'
+                 '    sources have), no max_value_len, immutable left at its default True.  `Res.new` reads exactly this. -/\n'
+                 'def resourceContainerArgs : List String := [' + ', '.join(lean_str(a) for a in container_args) + ']\n')
     for prop, field in (('attributes', '_attributes'), ('schema_url', '_schema_url')):
         if not same_shape(find_def(res, 'Resource.' + prop), f'return self.{field}'):
             raise Untranslatable(f'Resource.{prop} is no longer a plain getter')
